@@ -333,12 +333,15 @@ class StubSocket(_SocketExtras):
             r = StubSocket.plan.get('reply')
             if isinstance(r, type) and issubclass(r, BaseException):
                 raise r('recv failed')
-            return r
+            return r[:n] if isinstance(r, (bytes, bytearray)) else r
         chunks = StubSocket.plan.get('data_chunks', [])
         if chunks:
             c = chunks.pop(0)
             if isinstance(c, type):
                 raise c('timeout')
+            if len(c) > n:                   # a stream socket hands out at most bufsize bytes, the rest stays queued
+                chunks.insert(0, c[n:])
+                c = c[:n]
             return c
         raise real_socket.timeout('no more data')
 
@@ -384,14 +387,17 @@ class ScriptSocket(_SocketExtras):
             ok, evs = True, []
         st['pending'] += evs
         st['clock'].ms += st.get('tx_dt', 0)
-        self.reply = (b'OK\n' if len(st['commands']) % 2 else b'{"class":"ACK"}\r\n') if ok else (b'ERROR\n' if len(st['commands']) % 2 else b'{"class":"ERROR","message":"x"}\n')
+        # the reply is queued on THIS connection; recv(n) takes at most n bytes of it, what is left stays on the connection
+        self.buf = (self.buf or b'') + ((b'OK\n' if len(st['commands']) % 2 else b'{"class":"ACK"}\r\n') if ok else
+                                        (b'ERROR\n' if len(st['commands']) % 3 == 0 else b'{"class":"ERROR","message":"Can\'t perform request: device is not known to gpsd"}\r\n'))
         st['trace'].append(('T', payload, ok))
         st['heads'] = st.get('heads', []) + [head]
 
     def recv(self, n, flags=0):
         st = ScriptSocket.st
         if self.family == real_socket.AF_UNIX:
-            return self.reply
+            d, self.buf = (self.buf or b'')[:n], (self.buf or b'')[n:]
+            return d
         if st['handshake']:
             return st['handshake'].pop(0)
         if st['pending']:
